@@ -666,3 +666,31 @@ def origin_local(root, local_id, follow_chains=True, limit=8):
 
 def param_ids(body):
     return [i for p in body["params"] for (i, nm) in pat_bindings(p)]
+
+
+# ---------------------------------------------------------------- FormatArgs templates
+
+def _parse_sp(sp):
+    file, a, b_, c_ = sp.rsplit(":", 3)
+    c1, l2 = b_.split("-")
+    return file, (int(a), int(c1)), (int(l2), int(c_))
+
+
+def span_inside(inner_sp, outer_sp):
+    try:
+        f1, lo1, hi1 = _parse_sp(inner_sp)
+        f2, lo2, hi2 = _parse_sp(outer_sp)
+    except Exception:
+        return False
+    return f1 == f2 and lo2 <= lo1 and hi1 <= hi2
+
+
+def format_args_in(crate, node_or_body):
+    """FormatArgs records (write!/format!/bail!/println! templates) whose call-site span lies inside the node.
+    Each record: {sp, pieces: [str | {arg: int, trait}], args: [{sp, src}]}; `src` is the argument's source text.
+    Spans are used only to locate the template inside an already-anchored function, never as a rule key."""
+    n = node_or_body.get("body", node_or_body) if "k" not in node_or_body else node_or_body
+    outer = n["sp"]
+    out = [fa for fa in crate.raw.get("format_args", []) if span_inside(fa["sp"], outer)]
+    out.sort(key=lambda fa: _parse_sp(fa["sp"])[1])
+    return out
